@@ -135,6 +135,30 @@ PROPS["C11"] = {
     "assumptions": ["wall clock non-decreasing across chunk creations", "gunzip(gzip(x)) = x"],
 }
 
+PROPS["C15"] = {
+    "modules": ["SlogModel.Props.C15"],
+    "components": [("xform", 12000, 120000)],
+    "model_is_oracle": True,
+    "rule": "one case = one generated transform program (nesting <= 3; add/del/map/if/switch/block/drop/extractHead/extractTail/"
+            "truncate/unescape/redactEmail/parseTime; matchers incl. regex/glob forms equivalent to a prefix test) loaded from "
+            "YAML by the real code and run on 8 boundary-biased records, compared field by field with the Lean reference "
+            "interpreter; grids: every extract pattern x prepared values x 3 ranges, truncate at every length around multi-byte "
+            "characters (through an aliasing addFields), 10 sampling rates x 250 (thorough 2000) records; distinct by ops; all "
+            "non-trivial",
+    "level_text": "The Lean interpreter Xform.runSteps is the independent reference interpreter the property names; theorems pin its "
+                  "documented semantics: C15_sampler_tracks (within one record of the rate at every prefix), C15_first_drop_wins, "
+                  "C15_block_inline, C15_if_*, C15_switch_*, C15_match_order_irrelevant, C15_slice_spec (Python slice for all "
+                  "bounds), C15_truncate_spec / _ascii, C15_mapvalue_spec, C15_delfields, C15_unescape_once, "
+                  "C15_extract_head_decompose (text = left ++ tag ++ right ++ rest, label trimmed, boundary within range), "
+                  "C15_extract_head_total. The real transforms are compared with the interpreter on generated programs; a "
+                  "disagreement is reported with the program and record as replay.",
+    "level_note": "Trusted: Lean kernel + 3 standard axioms; sampled correspondence. PARTIAL: replace / extract (Go regexp) and "
+                  "general !!regex / !!glob matchers are opaque (only their plumbing is exercised); tail extraction has the "
+                  "correspondence but not yet the decomposition theorem; UTF-8 safety of the truncate cut is pending (shared with C09).",
+    "partial": "regexp/glob opaque; extractTail decomposition and UTF-8-safe cut theorems pending",
+    "assumptions": ["pairs of one addFields step do not interfere (Go map iteration order is unspecified)"],
+}
+
 NOT_APPLICABLE = {k: "check not built yet in this round (planned in DESIGN.md section 6); no claim is made" for k in
                   ["C%02d" % i for i in range(1, 20)]}
 
